@@ -694,6 +694,7 @@ class FT:
                 self.define(m.group(1), t)
                 self.decl[cname(m.group(1)) + '__in'] = t
         self.phis = phis
+        BYTE_EXPRS.clear()   # per function: SSA names repeat across functions
         # allocation sites: does the result of operator new get bitcast to a typed pointer?
         alltext = '\n'.join(s_ for _, ins_ in blocks for s_ in ins_)
         self.alloc_typed = set()
@@ -1063,6 +1064,7 @@ class FT:
 
 USED_FUNCS = {}
 STRS = {}
+ONCE_FUNCS = {'@harness'}
 ABI_OUT = {'@rtosc_argument': 'll_rtosc_argument', '@rtosc_itr_next': 'll_rtosc_itr_next'}
 USED_SHIMS = set()
 
@@ -1194,7 +1196,11 @@ def main():
             if t == 'va_list': fb.append('  va_list %s;' % v)
             elif isinstance(t, tuple):
                 _, mt, n = t
-                fb.append('  %s %s[%d];' % (ctype(mt), v, n))
+                # functions that run exactly once (static constructors, the harness entry): give their
+                # stack objects static storage -- cbmc propagates constants through statics but not
+                # through address-taken locals (e.g. the backing array of an initializer_list)
+                once = name.startswith('@_GLOBAL__sub_I') or name.startswith('@__cxx_global_var_init') or name in ONCE_FUNCS
+                fb.append('  %s%s %s[%d];' % ('static ' if once else '', ctype(mt), v, n))
             else:
                 if v in pn: continue
                 fb.append('  %s %s;' % (ctype(t), v))
